@@ -160,10 +160,19 @@ def axiom_audit(prop, theorems, extra_imports=()):
     return res
 
 
-def leancheck(module, fresh=False):
+def leancheck(modules, fresh=False):
+    """leanchecker (the toolchain's independent re-checker of .olean files) on the given modules; `fresh` replays every
+    imported module from scratch as well (one module at a time: minutes)"""
+    if isinstance(modules, str):
+        modules = [modules]
     with Lock("lake"):
-        cmd = ["lake", "env", "leanchecker"] + (["--fresh"] if fresh else []) + [module]
-        p = sh(cmd, cwd=LEAN, check=False, timeout=3600)
+        if fresh:
+            for m in modules:
+                p = sh(["lake", "env", "leanchecker", "--fresh", m], cwd=LEAN, check=False, timeout=3600)
+                if p.returncode != 0:
+                    return False, m + ": " + (p.stdout + p.stderr)[-2000:]
+            return True, ""
+        p = sh(["lake", "env", "leanchecker"] + list(modules), cwd=LEAN, check=False, timeout=3600)
     return p.returncode == 0, (p.stdout + p.stderr)[-2000:]
 
 
